@@ -224,15 +224,16 @@ TEXT["C08"] = {
              "simultaneously at accesses whose lock sets share a lock one side writes (no_data_race, via reachable_exclusive); `decide` shows on the skeleton regenerated from inmemory.go on every "
              "run (go/ast: all paths of all 12 handlers, helpers inlined) that every pair of conflicting accesses to the broker map, the group map, a group's topics and last-commit time is so "
              "excluded or is group state touched only by handlers hashed to the group's worker (handlers_disciplined), that every path is balanced and acquires locks in one acyclic order "
-             "(paths_balanced, acquisition_ordered), and that exactly the five group-keyed request types are hashed (group_requests_are_hashed); same_group_in_order proves same-key requests reach "
+             "(paths_balanced, acquisition_ordered), hence — mechanised for an arbitrary rank function and with Go's RWMutex writer preference in the machine — whenever some worker has work left, "
+             "some worker can step (no_deadlock, via Proofs/LocksProgress.lean: deadlock_free), and that exactly the five group-keyed request types are hashed (group_requests_are_hashed); same_group_in_order proves same-key requests reach "
              "one worker in arrival order; lag_pass_total_on_any_states proves the lag pass of fetchConsumer total for EVERY consumer snapshot and EVERY later broker state, so no interleaving of "
              "topic deletion, re-creation, commits and reads makes a read fail (read_never_fails, reply_is_snapshot). Two genuine defects were found by the concurrent run (and are refuted "
              "by `decide` on the pre-repair skeleton) and repaired: deleteTopic walked the group map unlocked (fatal concurrent map iteration), fetchConsumer indexed broker partitions by "
              "consumer partition id (index out of range after topic re-creation). Tie: the real module with 2-8 real workers; determined batches compared with the model, chaos batches "
              "judged by liveness, timeouts, snapshot immutability and internal consistency of every reply."),
     "note": ("Trusted: Lean kernel + 3 standard axioms; the go/ast skeleton extractor (locations by selector: clusterMap.broker, clusterMap.consumer, <group>.topics, <group>.lastCommit; a group's lock and "
-             "state are taken to belong to the same receiver); the reduction from race-freedom to atomic critical sections; deadlock freedom rests on the checked acquisition order (standard argument, "
-             "not mechanised). Not modelled: Go memory model below locks, channel fairness, RWMutex writer preference. The tie is sampled; schedules are whatever the runtime produces."),
+             "state are taken to belong to the same receiver); the reduction from race-freedom to atomic critical sections; lock instances of one class are conflated in the skeleton (the deadlock theorem is generic in the rank function, so it "
+             "covers instances ranked by class). Not modelled: Go memory model below locks, channel fairness. The tie is sampled; schedules are whatever the runtime produces."),
 }
 
 TEXT["C15"] = {
